@@ -36,6 +36,10 @@ type (
 		Lock(ctx context.Context, id types.FileContractID) (contracts.SignedRevision, error)
 		// Unlock unlocks the contract with the given ID.
 		Unlock(id types.FileContractID)
+		// Revisable returns an error if the contract with the given ID can
+		// no longer be revised. A session may hold its lock for longer than
+		// that.
+		Revisable(id types.FileContractID) error
 
 		// AddContract adds a new contract to the manager.
 		AddContract(revision contracts.SignedRevision, formationSet []types.Transaction, lockedCollateral types.Currency, initialUsage contracts.Usage) error
